@@ -8,7 +8,7 @@ from .common.httpgen import generate as _gen
 from .common.codec import hx, unhx
 
 PROPERTY = "C03"
-LEAN_MODULES = ["AioProps.C03", "AioProps.C03Main", "AioProps.C03Chunked"]
+LEAN_MODULES = ["AioProps.C03", "AioProps.C03Main", "AioProps.C03Chunked", "AioProps.C03Segments"]
 THEOREMS = [
     "Aio.Http.findCRLF_append_stable",
     "Aio.Http.findSep_append_stable",
@@ -36,6 +36,9 @@ THEOREMS = [
     "Aio.Http.goodRun_anyBody",
     "Aio.Http.feedLoop_append_all",
     "Aio.Http.feed_two_reads",
+    "Aio.Http.feed_anyBody",
+    "Aio.Http.feed_failed",
+    "Aio.Http.feed_segments",
 ]
 RULE = ("streams: grammar-generated request pipelines (1-3 requests; CL and chunked bodies with extensions/trailers; "
         "origin/absolute/asterisk/authority targets) and responses (lax and strict), each also mutated by one of the "
